@@ -51,6 +51,11 @@ def families(tier):
             ("promote-vs-promote", second, [[E1], [E2]]),
             ("replace-vs-get", present, [[GR], [GET, GET]]),
         ]
+        # the cache / shard directories do not exist yet: both writers race to create them
+        nodir = list(cfg)
+        fams += [("nodir:set-vs-set", nodir, [[S1, GET], [S2, GET]]),
+                 ("nodir:put-vs-set", nodir, [[P1, GET], [S2, GET]]),
+                 ("nodir:ensure-vs-put", nodir, [[E1], [P2, GET]])]
         if tier != "quick":
             fams += [("put-vs-get/present", present, [[P1, GET], [GET, TCH]]),
                      ("replace-vs-ensure", present, [[GR], [E2]]),
